@@ -593,4 +593,377 @@ example : WF (.f64 (.fin false 5 0)) ∧ devNum (.f64 (.fin false 5 0)) (.i .i8)
     convertNumeric (.f64 (.fin false 5 0)) (.i .i8) = .ok (.int .i8 5) := by
   refine ⟨by simp [WF, WFf], by decide, by decide⟩
 
+/-! ### call_exact: lifting numeric_exact through convertCallParameter -/
+
+theorem addDev_ne_nil (ds : List String) (d : String) : addDev ds d ≠ [] := by
+  unfold addDev
+  split
+  · rename_i h; intro hn; subst hn; simp at h
+  · simp
+
+theorem foldl_addDev_ne_nil (es : List String) : ∀ ds, ds ≠ [] → es.foldl addDev ds ≠ [] := by
+  induction es with
+  | nil => intro ds h; simpa using h
+  | cons d r ih => intro ds _; simp only [List.foldl]; exact ih _ (addDev_ne_nil ds d)
+
+theorem addDevs_nil (a b : List String) (h : addDevs a b = []) : a = [] ∧ b = [] := by
+  unfold addDevs at h
+  cases b with
+  | nil => simp at h; exact ⟨h, rfl⟩
+  | cons d r =>
+    simp only [List.foldl] at h
+    exact absurd h (foldl_addDev_ne_nil r _ (addDev_ne_nil a d))
+
+theorem finish_strict (l : List GV) (h : (exportArrayFinish true l).isGoPanic = false) :
+    exportArrayFinish false l = exportArrayFinish true l := by
+  unfold exportArrayFinish at h ⊢
+  cases hl : l.getLast? with
+  | none => rfl
+  | some last =>
+    simp only [hl] at h ⊢
+    generalize (!(l.all fun e => decide (kindTriple e = kindTriple (l.headD GV.anyNil))) || (kindTriple (l.headD GV.anyNil)).1 == 20 || (kindTriple (l.headD GV.anyNil)).1 == 0) = c1 at h ⊢
+    generalize (l.all fun e => decide (gvType e = gvType last)) = c2 at h ⊢
+    cases c1 <;> cases c2 <;> simp_all [Res.isGoPanic]
+
+theorem bind_notPanic {α β} (r : Res α) (f : α → Res β) (h : (r.bind f).isGoPanic = false) : r.isGoPanic = false := by
+  cases r <;> simp_all [Res.bind, Res.isGoPanic]
+
+mutual
+theorem exportV_strict (v : JV) (h : (exportV true v).isGoPanic = false) : exportV false v = exportV true v := by
+  cases v with
+  | undef => rfl
+  | null => rfl
+  | bool b => rfl
+  | num n => rfl
+  | str s => rfl
+  | arr es =>
+    simp only [exportV] at h ⊢
+    have h1 := bind_notPanic _ _ h
+    rw [exportElems_strict es h1]
+    cases hr : exportElems true es with
+    | ok l => rw [hr] at h; simp only [Res.bind] at h ⊢; exact finish_strict l h
+    | rangeErr => rfl
+    | typeErr => rfl
+    | goPanic => rfl
+  | obj ps =>
+    simp only [exportV] at h ⊢
+    have h1 : (exportProps true ps).isGoPanic = false := bind_notPanic _ _ h
+    rw [exportProps_strict ps h1]
+theorem exportElems_strict (es : JVs) (h : (exportElems true es).isGoPanic = false) :
+    exportElems false es = exportElems true es := by
+  cases es with
+  | nil => rfl
+  | hole r => simp only [exportElems] at h ⊢; exact exportElems_strict r h
+  | cons v r =>
+    simp only [exportElems] at h ⊢
+    have h1 := bind_notPanic _ _ h
+    rw [exportV_strict v h1]
+    cases hr : exportV true v with
+    | ok a =>
+      rw [hr] at h; simp only [Res.bind] at h ⊢
+      have h2 : (exportElems true r).isGoPanic = false := bind_notPanic _ _ h
+      rw [exportElems_strict r h2]
+    | rangeErr => rfl
+    | typeErr => rfl
+    | goPanic => rfl
+theorem exportProps_strict (ps : JPs) (h : (exportProps true ps).isGoPanic = false) :
+    exportProps false ps = exportProps true ps := by
+  cases ps with
+  | nil => rfl
+  | cons k v r =>
+    cases v with
+    | undef => simp only [exportProps] at h ⊢; exact exportProps_strict r h
+    | null =>
+      simp only [exportProps, exportV, Res.bind] at h ⊢
+      rw [exportProps_strict r (bind_notPanic _ _ h)]
+    | bool b =>
+      simp only [exportProps, exportV, Res.bind] at h ⊢
+      rw [exportProps_strict r (bind_notPanic _ _ h)]
+    | num n =>
+      simp only [exportProps, exportV, Res.bind] at h ⊢
+      rw [exportProps_strict r (bind_notPanic _ _ h)]
+    | str s =>
+      simp only [exportProps, exportV, Res.bind] at h ⊢
+      rw [exportProps_strict r (bind_notPanic _ _ h)]
+    | arr es =>
+      simp only [exportProps] at h ⊢
+      have h1 := bind_notPanic _ _ h
+      rw [exportV_strict (.arr es) h1]
+      cases hr : exportV true (.arr es) with
+      | ok a =>
+        rw [hr] at h; simp only [Res.bind] at h ⊢
+        rw [exportProps_strict r (bind_notPanic _ _ h)]
+      | rangeErr => rfl
+      | typeErr => rfl
+      | goPanic => rfl
+    | obj qs =>
+      simp only [exportProps] at h ⊢
+      have h1 := bind_notPanic _ _ h
+      rw [exportV_strict (.obj qs) h1]
+      cases hr : exportV true (.obj qs) with
+      | ok a =>
+        rw [hr] at h; simp only [Res.bind] at h ⊢
+        rw [exportProps_strict r (bind_notPanic _ _ h)]
+      | rangeErr => rfl
+      | typeErr => rfl
+      | goPanic => rfl
+end
+
+mutual
+/-- every number inside a JavaScript value is a well-formed Go payload -/
+def WFV : JV → Prop
+  | .num n => WF n
+  | .arr es => WFVs es
+  | .obj ps => WFPs ps
+  | _ => True
+def WFVs : JVs → Prop
+  | .nil => True
+  | .hole r => WFVs r
+  | .cons v r => WFV v ∧ WFVs r
+def WFPs : JPs → Prop
+  | .nil => True
+  | .cons _ v r => WFV v ∧ WFPs r
+end
+
+theorem ptrWrap_congr (t : GT) (v : JV) (r : Res GV)
+    (hc : ¬ (t.depth > 0 ∧ t.base.isAny ∧ (!v.isNullish) = true)) :
+    ptrWrap modelLeaf t v r = ptrWrap Spec.leaf t v r := by
+  unfold ptrWrap
+  by_cases h1 : t.depth > 0 <;> by_cases h2 : t.base.isAny = true <;> by_cases h3 : v.isNullish = true <;>
+    simp_all [modelLeaf, Spec.leaf]
+
+theorem hole_congr (tt : GT) (hz : zeroLike .undef tt = true) :
+    (Res.ok tt.zero : Res GV) = ptrWrap Spec.leaf tt .undef (convUndefB tt.base) := by
+  unfold zeroLike at hz
+  unfold ptrWrap
+  cases tt with
+  | ptr e => simp [GT.depth, JV.isNullish, GT.zero]
+  | any => simp [GT.depth, GT.base, convUndefB, GT.zero, Res.map, Res.bind, wrapPtr, GT.isAny, Spec.leaf]
+  | bool => simp [GT.depth, GT.base, convUndefB, GT.zero, Res.map, Res.bind, wrapPtr, GT.isAny]
+  | num t => simp [GT.depth, GT.base] at hz
+  | str => simp [GT.depth, GT.base] at hz
+  | slice e => simp [GT.depth, GT.base] at hz
+  | map e => simp [GT.depth, GT.base] at hz
+  | struct fs => simp [GT.depth, GT.base] at hz
+
+/-- the field-type function the driver's struct walk uses -/
+def ftOf (st : GT) (k : Str) : GT :=
+  match fieldIndexByName st k with
+  | some p => (typeAt st p).getD .any
+  | none => .any
+
+mutual
+theorem convB_exact (v : JV) (t : GT) (hw : WFV v) (hd : devConv v t = []) :
+    convB modelLeaf v t.base = convB Spec.leaf v t.base ∧
+    ¬ (t.depth > 0 ∧ t.base.isAny ∧ (!v.isNullish) = true) := by
+  unfold devConv at hd
+  by_cases hc : t.depth > 0 ∧ t.base.isAny = true ∧ (!v.isNullish) = true
+  · simp [hc] at hd
+  · refine ⟨?_, hc⟩
+    simp only [hc, if_false] at hd
+    generalize t.base = b at hd ⊢
+    cases b with
+    | bool => unfold convB; rfl
+    | ptr e => unfold convB; rfl
+    | any =>
+      unfold convB
+      simp only [modelLeaf, Spec.leaf]
+      have hp : (exportV true v).isGoPanic = false := by
+        cases h : (exportV true v).isGoPanic
+        · rfl
+        · simp [isGoPanic, h] at hd
+      rw [exportV_strict v hp]
+    | num nt =>
+      unfold convB
+      cases v with
+      | num n =>
+        simp only [WFV] at hw
+        simp only at hd
+        simp only [modelLeaf, Spec.leaf, numeric_exact n nt hw hd]
+      | _ => rfl
+    | str =>
+      unfold convB
+      cases v with
+      | num n =>
+        simp only at hd
+        have : goFmtV n = jsNumToString n := by
+          by_cases h : goFmtV n = jsNumToString n
+          · exact h
+          · simp [h] at hd
+        simp only [modelLeaf, Spec.leaf, this]
+      | _ => rfl
+    | slice tt =>
+      unfold convB
+      cases v with
+      | arr es =>
+        simp only [WFV] at hw
+        simp only at hd
+        dsimp only
+        rw [convElems_exact es tt hw hd]
+      | _ => rfl
+    | map tt =>
+      unfold convB
+      cases v with
+      | obj ps =>
+        simp only [WFV] at hw
+        simp only at hd
+        dsimp only
+        rw [convProps_exact ps tt hw hd]
+      | arr es =>
+        simp only [WFV] at hw
+        simp only at hd
+        dsimp only
+        rw [convIndexed_exact es 0 tt hw hd]
+      | _ => rfl
+    | struct fs =>
+      unfold convB
+      cases v with
+      | obj ps =>
+        simp only [WFV] at hw
+        simp only at hd
+        exact convFields_exact ps (.struct fs) _ hw hd
+      | _ => rfl
+theorem conv_exact (v : JV) (t : GT) (hw : WFV v) (hd : devConv v t = []) :
+    ptrWrap modelLeaf t v (convB modelLeaf v t.base) = ptrWrap Spec.leaf t v (convB Spec.leaf v t.base) := by
+  obtain ⟨h1, h2⟩ := convB_exact v t hw hd
+  rw [h1]
+  exact ptrWrap_congr t v _ h2
+theorem convElems_exact (es : JVs) (tt : GT) (hw : WFVs es) (hd : devElems es tt = []) :
+    convElems modelLeaf es tt = convElems Spec.leaf es tt := by
+  cases es with
+  | nil => unfold convElems; rfl
+  | hole r =>
+    unfold devElems at hd
+    obtain ⟨h1, h2⟩ := addDevs_nil _ _ hd
+    simp only [WFVs] at hw
+    have hz : zeroLike .undef tt = true := by
+      cases h : zeroLike .undef tt
+      · simp [h] at h1
+      · rfl
+    unfold convElems
+    rw [convElems_exact r tt hw h2]
+    simp only [modelLeaf, Spec.leaf, Bool.false_eq_true, if_false, if_true]
+    rw [hole_congr tt hz]
+    rfl
+  | cons v r =>
+    unfold devElems at hd
+    obtain ⟨h1, h2⟩ := addDevs_nil _ _ hd
+    simp only [WFVs] at hw
+    unfold convElems
+    rw [conv_exact v tt hw.1 h1, convElems_exact r tt hw.2 h2]
+theorem convIndexed_exact (es : JVs) (i : Nat) (tt : GT) (hw : WFVs es) (hd : devElemsNoHole es tt = []) :
+    convIndexed modelLeaf es i tt = convIndexed Spec.leaf es i tt := by
+  cases es with
+  | nil => unfold convIndexed; rfl
+  | hole r =>
+    unfold devElemsNoHole at hd
+    simp only [WFVs] at hw
+    unfold convIndexed
+    exact convIndexed_exact r (i+1) tt hw hd
+  | cons v r =>
+    unfold devElemsNoHole at hd
+    obtain ⟨h1, h2⟩ := addDevs_nil _ _ hd
+    simp only [WFVs] at hw
+    unfold convIndexed
+    rw [conv_exact v tt hw.1 h1, convIndexed_exact r (i+1) tt hw.2 h2]
+theorem convProps_exact (ps : JPs) (tt : GT) (hw : WFPs ps) (hd : devProps ps (fun _ => tt) = []) :
+    convProps modelLeaf ps tt = convProps Spec.leaf ps tt := by
+  cases ps with
+  | nil => unfold convProps; rfl
+  | cons k v r =>
+    unfold devProps at hd
+    obtain ⟨h1, h2⟩ := addDevs_nil _ _ hd
+    simp only [WFPs] at hw
+    unfold convProps
+    rw [conv_exact v tt hw.1 h1, convProps_exact r tt hw.2 h2]
+theorem convFields_exact (ps : JPs) (st : GT) (acc : GV) (hw : WFPs ps)
+    (hd : devProps ps (fun k => match fieldIndexByName st k with
+          | some p => (typeAt st p).getD .any
+          | none => .any) = []) :
+    convFields modelLeaf ps st acc = convFields Spec.leaf ps st acc := by
+  cases ps with
+  | nil => unfold convFields; rfl
+  | cons k v r =>
+    unfold devProps at hd
+    obtain ⟨h1, h2⟩ := addDevs_nil _ _ hd
+    simp only [WFPs] at hw
+    unfold convFields
+    cases hf : fieldIndexByName st k with
+    | none => rfl
+    | some idx =>
+      simp only
+      cases hta : typeAt st idx with
+      | none => rfl
+      | some ft =>
+        simp only
+        have h1' : devConv v ft = [] := by simpa [hf, hta] using h1
+        rw [conv_exact v ft hw.1 h1']
+        cases ptrWrap Spec.leaf ft v (convB Spec.leaf v ft.base) with
+        | ok a => simp only [Res.bind]; exact convFields_exact r st _ hw.2 h2
+        | rangeErr => rfl
+        | typeErr => rfl
+        | goPanic => rfl
+end
+
+/-- **C16.call_exact.**  For every JavaScript argument value (arbitrarily nested arrays with holes and plain
+    objects) and every Go parameter type of the family (scalars, slices, string-keyed maps, pointers, structs,
+    interface{}), outside the listed call-path regions `convertCallParameter` builds exactly the Go value the
+    property text demands or fails with exactly the error it demands: `numeric_exact` lifted element-wise. -/
+theorem call_exact (v : JV) (t : GT) (hw : WFV v) (hd : devConv v t = []) :
+    convertCallParameter v t = Spec.convertCallParameter v t := by
+  unfold convertCallParameter Spec.convertCallParameter conv
+  exact conv_exact v t hw hd
+
+theorem deferred_model_false (a : JV) (t : GT) (hd : devConv a t = []) : deferredPanic modelLeaf a t = false := by
+  unfold devConv at hd
+  by_cases hc : t.depth > 0 ∧ t.base.isAny = true ∧ (!a.isNullish) = true
+  · simp [hc] at hd
+  · unfold deferredPanic
+    by_cases h1 : t.depth > 0 <;> by_cases h2 : t.base.isAny = true <;> by_cases h3 : a.isNullish = true <;>
+      simp_all [modelLeaf]
+
+theorem deferred_spec_false (a : JV) (t : GT) : deferredPanic Spec.leaf a t = false := by
+  simp [deferredPanic, Spec.leaf]
+
+/-- all (argument, parameter type) pairs are well-formed and outside every call-path region -/
+def CleanArgs : List JV → List GT → Prop
+  | a :: as, t :: ts => WFV a ∧ devConv a t = [] ∧ CleanArgs as ts
+  | _, _ => True
+
+theorem convArgs_exact (args : List JV) : ∀ (ins : List GT), CleanArgs args ins →
+    convArgs modelLeaf args ins = convArgs Spec.leaf args ins ∧
+    deferredIn modelLeaf args ins = false ∧ deferredIn Spec.leaf args ins = false := by
+  induction args with
+  | nil => intro ins _; cases ins <;> simp [convArgs, deferredIn]
+  | cons a as ih =>
+    intro ins hc
+    cases ins with
+    | nil => simp [convArgs, deferredIn]
+    | cons t ts =>
+      obtain ⟨hw, hd, hrest⟩ := hc
+      obtain ⟨h1, h2, h3⟩ := ih ts hrest
+      have e1 := deferred_model_false a t hd
+      have e2 := deferred_spec_false a t
+      refine ⟨?_, ?_, ?_⟩
+      · simp only [convArgs, e1, e2, Bool.false_eq_true, if_false]
+        have := call_exact a t hw hd
+        unfold convertCallParameter Spec.convertCallParameter at this
+        rw [this, h1]
+      · simp [deferredIn, e1, h2]
+      · simp [deferredIn, e2, h3]
+
+/-- **C16.call_exact for whole calls** (fixed signatures): with every argument outside the listed regions the Go
+    callee receives exactly the parameter list the property text demands, or the script gets exactly the error it
+    demands, for every signature and every argument count. -/
+theorem call_fixed_exact (ins : List GT) (args : List JV) (hc : CleanArgs args ins) :
+    callWrapper modelLeaf ⟨ins, false⟩ args = callWrapper Spec.leaf ⟨ins, false⟩ args := by
+  obtain ⟨h1, h2, h3⟩ := convArgs_exact args ins hc
+  rw [arity_fixed, arity_fixed, h1, h2, h3]
+
+-- non-vacuity: f([1, 2], {A: 3}) against func([]int8, struct{A int; B string `json:"bee"`})
+example : CleanArgs
+    [.arr (.cons (.num (.int .i64 1)) (.cons (.num (.int .i64 2)) .nil)), .obj (.cons [65] (.num (.int .i64 3)) .nil)]
+    [.slice (.num (.i .i8)), .struct (.cons [65] [] false (.num (.i .int)) (.cons [66] [98, 101, 101] false .str .nil))] := by
+  refine ⟨⟨⟨by decide, by decide⟩, ⟨by decide, by decide⟩, trivial⟩, by decide, ⟨⟨by decide, by decide⟩, trivial⟩, by decide, trivial⟩
+
 end OttoVerif.C16.Thm
